@@ -193,6 +193,8 @@ fn enc_resolved(r: &ResolvedCallArgument) -> Sexp {
     }
 }
 
+// error enums are matched with wildcard arms: a new variant is reported as `other…`, never a build failure
+#[allow(unreachable_patterns)]
 fn enc_argerr(e: &CallArgumentResolutionError) -> Sexp {
     match e {
         CallArgumentResolutionError::UndeclaredMemoryReference(n) => tagged("undeclared", vec![st(n.clone())]),
@@ -204,6 +206,7 @@ fn enc_argerr(e: &CallArgumentResolutionError) -> Sexp {
         CallArgumentResolutionError::InvalidVectorArgument(_) => atom("invvec"),
         CallArgumentResolutionError::ReturnArgument { .. } => atom("retarg"),
         CallArgumentResolutionError::ImmediateArgumentForMutable(p) => tagged("immmut", vec![st(p.clone())]),
+        _ => atom("otherargerr"),
     }
 }
 
@@ -338,10 +341,16 @@ fn call_case(ctx: &mut Ctx, c: &CallCase) {
                                     CallArgumentError::Argument { index, error } => {
                                         tagged("arg", vec![nat(*index as u64), enc_argerr(error)])
                                     }
+                                    #[allow(unreachable_patterns)]
+                                    _ => atom("othercallargerr"),
                                 })
                                 .collect(),
                         ),
+                        #[allow(unreachable_patterns)]
+                        _ => tagged("othersigerr", vec![]),
                     },
+                    #[allow(unreachable_patterns)]
+                    _ => tagged("otherresolutionerr", vec![]),
                 }
             }
         };
@@ -380,6 +389,7 @@ fn real_pragma(p: &PragmaSpec) -> Pragma {
     )
 }
 
+#[allow(unreachable_patterns)]
 fn extern_err_class(e: &ExternError) -> &'static str {
     let _ = format!("{e} {e:#} {e:?}");
     match e {
@@ -391,6 +401,7 @@ fn extern_err_class(e: &ExternError) -> &'static str {
         ExternError::PragmaIsNotExtern => "notextern",
         ExternError::NoReturnOrParameters => "noret",
         ExternError::Name(_) => "name",
+        _ => "other",
     }
 }
 
